@@ -98,13 +98,24 @@ dur_args = st.fixed_dictionaries({}, optional={"years": st.integers(-10, 10), "m
 @st.composite
 def spec(draw):
     k = draw(st.sampled_from(["overlap", "aware", "aware", "naive", "fixed", "date", "time", "time_tz", "duration", "duration", "absduration", "interval", "interval",
-                              "date_interval", "timezone", "fixedtz"]))
+                              "date_interval", "timezone", "fixedtz", "raw_gap", "raw_gap_interval", "fixed_fold1", "stdlib_tzinfo"]))
     z = draw(S.zones())
     c = {"kind": k, "zone": z, "ops": draw(st.lists(st.sampled_from(OPS), min_size=2, max_size=4, unique=True))}
     if k == "overlap":
         zz = draw(S.zones_with_transitions())
         c["zone"] = zz
         c["u"] = draw(S.instant_near_transition(zz))
+    elif k in ("raw_gap", "raw_gap_interval"):
+        # the class constructor does not normalise: a wall time inside a DST gap (either fold) is a legal, if unusual, value
+        zz = draw(S.zones_with_transitions())
+        c["zone"] = zz
+        c["w"] = draw(S.wall_near_transition(zz))
+        c["fold"] = draw(st.integers(0, 1))
+        c["u"] = draw(S.uniform_instant())
+    elif k in ("fixed_fold1", "stdlib_tzinfo"):
+        c["w"] = draw(S.uni(S.LO_U, S.HI_U))
+        c["off"] = draw(S.fixed_offset_seconds())
+        c["fold"] = draw(st.integers(0, 1))
     elif k in ("aware", "fixed", "time_tz"):
         c["u"] = draw(S.uniform_instant())
         c["off"] = draw(S.fixed_offset_seconds())
@@ -126,6 +137,15 @@ def spec(draw):
 
 def build(c):
     k = c["kind"]
+    if k == "raw_gap":
+        return DateTime(*S.wall_tuple(S.clamp_u(c["w"])), tzinfo=pendulum.timezone(c["zone"]), fold=c["fold"])
+    if k == "raw_gap_interval":
+        a = DateTime(*S.wall_tuple(S.clamp_u(c["w"])), tzinfo=pendulum.timezone(c["zone"]), fold=c["fold"])
+        return pendulum.interval(a, pendulum.instance(T.render(S.clamp_u(c["u"]), c["zone"])))
+    if k == "fixed_fold1":
+        return DateTime(*S.wall_tuple(c["w"]), tzinfo=pendulum.tz.fixed_timezone(c["off"]), fold=c["fold"])
+    if k == "stdlib_tzinfo":
+        return DateTime(*S.wall_tuple(c["w"]), tzinfo=D.timezone(D.timedelta(seconds=c["off"])), fold=c["fold"])
     if k == "overlap":
         return pendulum.instance(T.render(c["u"], c["zone"]))
     if k == "aware":
